@@ -54,7 +54,9 @@ def fns(periodic):
     F["set_up_containers"] = Fn(src_b, r"void set_up_containers\(const std::vector<unsigned>& sizes, bool is_pos_inf\)", "set_up_containers", "",
                                 sig_subs=SIG_SUBS + [(r"\bsizes\b", "in_sizes")],
                                 subs=[(r"(?<!this->)\bsizes\b", "in_sizes"),
-                                      (r"this->data = std::vector<T>\(multiplier, (-?)std::numeric_limits<T>::infinity\(\)\);", r"vp_data_init(multiplier, \1INFINITY);", 2)] + vec_subs())
+                                      (r"this->data = std::vector<T>\(multiplier, ([^;]*)\);", r"vp_data_init(multiplier, \1);", 2),
+                                      (r"std::numeric_limits<T>::infinity\(\)", "INFINITY", 0), (r"std::numeric_limits<T>::max\(\)", "DBL_MAX", 0),
+                                      (r"std::numeric_limits<T>::lowest\(\)", "(-DBL_MAX)", 0)] + vec_subs())
     F["compute_counter_for_given_cell"] = Fn(B, r"std::vector<unsigned> compute_counter_for_given_cell\(std::size_t cell\) const", "compute_counter_for_given_cell",
                                              "__CPROVER_requires(shape_ok() && cell < X_SIZE)\n__CPROVER_ensures(P_counter(__CPROVER_old(cell), __CPROVER_return_value))\n__CPROVER_assigns()\n",
                                              sig_subs=SIG_SUBS, subs=vec_subs(),
@@ -110,7 +112,11 @@ static void setup(void) {
   directions_in_which_periodic_b_cond_are_to_be_imposed.a[2] = P2; directions_in_which_periodic_b_cond_are_to_be_imposed.a[3] = P3;
 #endif
   sizes.n = 0; multipliers.n = 0; g_thrown = 0;   /* DFCC starts the harness with nondeterministic statics */
+  set_up_containers(in, false);
+  __CPROVER_assert(isinf(g_fill) && g_fill < 0, "set_up_containers(.., false): every cell starts at -infinity, the identity of max (values from vertices)");
+  sizes.n = 0; multipliers.n = 0;
   set_up_containers(in, true);          /* the real function from /repo builds the multipliers */
+  __CPROVER_assert(isinf(g_fill) && g_fill > 0, "set_up_containers(.., true): every cell starts at +infinity, the identity of min (values from top cells)");
   __CPROVER_assert(SHAPE_OK_EXPR, "set_up_containers: multipliers[i] == product of the layer counts below i; data has one slot per cell");
 }
 size_t nondet_size(void);
